@@ -22,10 +22,24 @@ def load():
     return _F
 
 
-def match(prop, key):
+def _match1(prop, key):
     for f in load():
         if f.get("status") == "open" and f["property"] == prop and f["key"] == key:
             return f
+    return None
+
+
+def match(prop, key):
+    f = _match1(prop, key)
+    if f is not None or not isinstance(key, str):
+        return f
+    # a witness may show several mechanisms at once ("class/mech1+mech2", one per differing block of a file): it is a
+    # known finding only if EVERY component is one
+    if "/" in key and "+" in key:
+        head, tail = key.split("/", 1)
+        parts = [_match1(prop, head + "/" + t) for t in tail.split("+")]
+        if parts and all(p is not None for p in parts):
+            return parts[0]
     return None
 
 
